@@ -34,6 +34,9 @@ MALFORMED = [
     ("alias of unknown unit", "@alias nosuchunit = nsu"),
     ("invalid prefix name", "2p- = 10"),
     ("modifier without a value", "degQ = kelvin; offset:"),
+    ("modifier without a colon", "degQ = kelvin; offset 273.15"),
+    ("stray text after the modifiers", "degQ = 2 * kelvin; offset: 10; bogus"),
+    ("number in place of a modifier", "degQ = kelvin; 273.15"),
     ("symbol with a blank", "blsym = 3 * metre = bl sym"),
 ]
 
